@@ -3,7 +3,7 @@
     which [run] returns [Ok]. *)
 From PM Require Import Model.Prelude Model.Domain Model.Constraint Model.BindAll Model.Automaton Model.Traversal
   Model.BindMaps Model.DomString Cert.CharCert Cert.WfCheck
-  Proofs.BindAllProofs Proofs.BindMapProofs Proofs.BindMapHistories Proofs.WfSound Proofs.StringRun Proofs.StringUnique.
+  Proofs.BindAllProofs Proofs.BindMapProofs Proofs.BindMapHistories Proofs.WfSound Proofs.StringRun Proofs.StringUnique Proofs.RunTotal.
 Local Open Scope N_scope.
 Arguments N.max : simpl never.
 Arguments N.add : simpl never.
@@ -11,32 +11,6 @@ Arguments N.ltb : simpl never.
 Arguments N.eqb : simpl never.
 
 (** ** the components never panic *)
-Lemma rmapM_total {X Y} (f : X -> res Y) l :
-  (forall x, In x l -> exists y, f x = Ok y) -> exists r, rmapM f l = Ok r /\ length r = length l.
-Proof.
-  induction l as [|x l IH]; intros H; [exists []; auto|].
-  destruct (H x (or_introl eq_refl)) as [y Ey]. destruct IH as [r [Er Hl]]; [intros z Hz; apply H; now right|].
-  exists (y :: r). cbn. rewrite Ey. cbn. rewrite Er. cbn. split; auto.
-Qed.
-
-Lemma rflatM_total {X Y} (f : X -> res (list Y)) l n :
-  (forall x, In x l -> exists ys, f x = Ok ys /\ (length ys <= n)%nat) ->
-  exists r, rflatM f l = Ok r /\ (length r <= length l * n)%nat.
-Proof.
-  induction l as [|x l IH]; intros H; [exists []; cbn; auto|].
-  destruct (H x (or_introl eq_refl)) as [ys [Ey Hy]]. destruct IH as [r [Er Hl]]; [intros z Hz; apply H; now right|].
-  exists (ys ++ r). cbn [rflatM]. rewrite Ey. cbn [rbind]. rewrite Er. cbn [rbind]. split; auto.
-  rewrite app_length. cbn [length]. lia.
-Qed.
-
-Lemma rflatM_total' {X Y} (f : X -> res (list Y)) l :
-  (forall x, In x l -> exists ys, f x = Ok ys) -> exists r, rflatM f l = Ok r.
-Proof.
-  induction l as [|x l IH]; intros H; [exists []; reflexivity|].
-  destruct (H x (or_introl eq_refl)) as [ys Ey]. destruct IH as [r Er]; [intros z Hz; apply H; now right|].
-  exists (ys ++ r). cbn [rflatM]. rewrite Ey. cbn [rbind]. rewrite Er. reflexivity.
-Qed.
-
 Lemma s_bind_all_total h m ks inc : exists l, bind_all string_dom h m ks inc = Ok l.
 Proof.
   destruct (extend_total string_dom h inc ks (fun k m0 => ex_intro _ (s_opts h k m0) eq_refl) m) as [r Hr].
@@ -122,14 +96,6 @@ Proof.
     rewrite El in B. inversion B; subst. cbn in Ll. lia.
 Qed.
 
-Lemma resolve_length {K V M H P} (D : DomOps K V M H P) (m : M) args vs :
-  resolve_args D m args = inr vs -> length vs = length args.
-Proof.
-  revert vs. induction args as [|k ks IH]; intros vs R; cbn in R; [inversion R; reflexivity|].
-  destruct (mget D m k); [|discriminate]. destruct (resolve_args D m ks) as [e|vs'] eqn:R'; inversion R; subst.
-  cbn. now rewrite (IH vs' eq_refl).
-Qed.
-
 Lemma s_sat_total h (c : constraint N cpredicate) m :
   length (cargs c) = c_arity (cpred c) -> exists b, sat_or_false string_dom h c m = Ok b.
 Proof.
@@ -141,211 +107,6 @@ Proof.
   - destruct vs as [|a [|? ?]]; try discriminate. eexists. reflexivity.
 Qed.
 
-Lemma filter_sat_total h m (cts : list (constraint N cpredicate * N)) :
-  (forall c t, In (c, t) cts -> length (cargs c) = c_arity (cpred c)) ->
-  exists r, filter_sat string_dom h m cts = Ok r /\ (length r <= length cts)%nat.
-Proof.
-  induction cts as [|[c t] cts IH]; intros H; [exists []; auto|].
-  destruct (s_sat_total h c m (H c t (or_introl eq_refl))) as [b Eb].
-  destruct IH as [r [Er Hl]]; [intros c' t' Hin; apply (H c' t'); now right|].
-  exists (if b then t :: r else r). cbn [filter_sat]. rewrite Eb. cbn [rbind]. rewrite Er. cbn [rbind]. split; auto.
-  destruct b; cbn [length]; lia.
-Qed.
-
-(** ** the states of a well-formed automaton *)
-Section StringTotal.
-  Variable A : automaton N cpredicate.
-  Variable ids : list N.
-  Hypothesis HWF : WF string_dom A ids.
-  Hypothesis HAR : arity_ok string_dom A = true.
-  Variable h : shost.
-
-  Lemma find_edge_unique (st : astate N cpredicate) e :
-    In st (au_states A) -> In e (a_out st) -> find_edge (a_out st) (e_id e) = Some e.
-  Proof.
-    intros Hst He. pose proof (wf_edge_ids _ _ _ HWF st Hst) as Hnd. revert He Hnd.
-    induction (a_out st) as [|x l IH]; intros He Hnd; [destruct He|]. cbn [find_edge map] in *.
-    inversion Hnd as [|? ? Hn Hd]; subst. destruct He as [->|He].
-    - now rewrite N.eqb_refl.
-    - destruct (N.eqb_spec (e_id x) (e_id e)) as [Eq|]; [|auto].
-      exfalso. apply Hn. rewrite Eq. now apply in_map.
-  Qed.
-
-  Lemma get_state_total t : In t (state_ids A) -> exists st, get_state A t = Ok st /\ In st (au_states A) /\ a_id st = t.
-  Proof.
-    unfold state_ids, get_state. intros Hin. apply in_map_iff in Hin as [st [E Hst]].
-    assert (G : exists st', find_state (au_states A) t = Some st').
-    { clear HWF HAR. induction (au_states A) as [|x l IH]; [destruct Hst|]. cbn.
-      destruct (N.eqb_spec (a_id x) t); [eauto|]. destruct Hst as [->|Hst]; [contradiction|auto]. }
-    destruct G as [st' G]. rewrite G. exists st'. split; auto.
-    clear - G. induction (au_states A) as [|x l IH]; cbn in G; [discriminate|].
-    destruct (N.eqb_spec (a_id x) t).
-    - inversion G; subst. split; [now left|reflexivity].
-    - destruct (IH G). split; [now right|assumption].
-  Qed.
-
-  Lemma cons_transitions_total st : In st (au_states A) ->
-    exists cts, cons_transitions st = Ok cts /\ length cts = length (a_corder st).
-  Proof.
-    intros Hst. unfold cons_transitions. apply rmapM_total. intros id Hid.
-    destruct (wf_corder _ _ _ HWF st Hst) as [_ Hiff]. apply Hiff in Hid as [e [He [Eid Hc]]].
-    subst id. rewrite (find_edge_unique st e Hst He). destruct e as [eid tgt [c|]]; [eauto|]. cbn in Hc. contradiction.
-  Qed.
-
-  Lemma fail_next_total st : In st (au_states A) ->
-    exists fo, fail_next_state st = Ok fo /\ forall t, fo = Some t -> exists e, In e (a_out st) /\ e_target e = t.
-  Proof.
-    intros Hst. unfold fail_next_state. pose proof (wf_one_eps _ _ _ HWF st Hst) as Hle.
-    destruct (a_eorder st) as [|id [|id2 r]] eqn:Eo; [exists None; split; [auto|discriminate]| |cbn in Hle; lia].
-    destruct (wf_eorder _ _ _ HWF st Hst) as [_ Hiff].
-    assert (Hid : In id (a_eorder st)) by (rewrite Eo; now left).
-    apply Hiff in Hid as [e [He [Eid _]]]. subst id. rewrite (find_edge_unique st e Hst He).
-    exists (Some (e_target e)). split; auto. intros t X. inversion X; subst. eauto.
-  Qed.
-
-  Lemma edge_arity st c t cts : In st (au_states A) -> cons_transitions st = Ok cts -> In (c, t) cts ->
-    length (cargs c) = c_arity (cpred c).
-  Proof.
-    intros Hst CT Hin. destruct (cons_transitions_edge st cts c t CT Hin) as [e [He [Ec _]]].
-    unfold arity_ok in HAR. rewrite forallb_forall in HAR. specialize (HAR st Hst).
-    rewrite forallb_forall in HAR. specialize (HAR e He). rewrite Ec in HAR. now apply Nat.eqb_eq in HAR.
-  Qed.
-
-  Definition cmax : nat := fold_right Nat.max 0%nat (map (fun st => length (a_corder st)) (au_states A)).
-
-  Lemma cmax_ge st : In st (au_states A) -> (length (a_corder st) <= cmax)%nat.
-  Proof.
-    unfold cmax. induction (au_states A) as [|x l IH]; intros Hin; [destruct Hin|]. cbn [map fold_right].
-    destruct Hin as [->|Hin]; [lia|]. specialize (IH Hin). lia.
-  Qed.
-
-  Definition Bh : nat := (Nat.max 1 (N.to_nat (blen h)) * S cmax)%nat.
-
-  Lemma emissions_total st m : In st (au_states A) -> exists e, emissions string_dom h st m = Ok e.
-  Proof.
-    intros Hst. unfold emissions. apply rflatM_total'. intros [pid keys] Hpk.
-    pose proof (wf_match_ordered _ _ _ HWF st (pid, keys) Hst Hpk) as Ho. cbn [snd] in Ho.
-    cbn zeta.
-    set (new_keys := filter (fun k => match mget string_dom m k with None => true | Some _ => false end) keys).
-    assert (Hbs : exists bs, match new_keys with [] => Ok [m] | _ => bind_all string_dom h m new_keys false end = Ok bs).
-    { destruct new_keys; [eauto|apply s_bind_all_total]. }
-    destruct Hbs as [bs ->]. cbn [rbind].
-    destruct (rmapM_total (mretain string_dom keys) bs) as [bs' [-> _]].
-    { intros b _. now apply s_retain_total_ord. }
-    cbn [rbind]. eauto.
-  Qed.
-
-  Lemma next_legal_total st m : In st (au_states A) ->
-    exists ys, next_legal_states string_dom h st m = Ok ys /\ (length ys <= Bh)%nat
-               /\ forall y, In y ys -> exists e, In e (a_out st) /\ e_target e = fst y.
-  Proof.
-    intros Hst. unfold next_legal_states.
-    destruct (s_bind_all_total h m (a_scope st) true) as [cands B]. rewrite B. cbn [rbind].
-    pose proof (s_bind_all_length h true _ _ _ B) as Hlc.
-    destruct (rmapM_total (mretain string_dom (a_scope st)) cands) as [cands' [R Hl']].
-    { intros b _. apply s_retain_total_ord. apply (wf_scope_ordered _ _ _ HWF st Hst). }
-    rewrite R. cbn [rbind].
-    destruct (cons_transitions_total st Hst) as [cts [CT Hlen]]. rewrite CT. cbn [rbind].
-    destruct (fail_next_total st Hst) as [fo [FN Hfo]].
-    pose proof (cmax_ge st Hst) as Hcm.
-    destruct (rflatM_total (fun b =>
-                let* fired := filter_sat string_dom h b cts in
-                let needs_fail := negb (a_det st) || match fired with [] => true | _ => false end in
-                let* fail := if needs_fail then fail_next_state st else Ok None in
-                Ok (map (fun t => (t, b)) fired ++ match fail with Some t => [(t, b)] | None => [] end)) cands' (S cmax))
-      as [ys [E Hly]].
-    { intros b _. destruct (filter_sat_total h b cts) as [fired [FS Hlf]].
-      { intros c t Hin. eapply edge_arity; eauto. }
-      rewrite FS. cbn [rbind]. cbn zeta.
-      destruct (negb (a_det st) || match fired with [] => true | _ => false end).
-      - rewrite FN. cbn [rbind]. eexists. split; [reflexivity|]. rewrite app_length, map_length.
-        destruct fo; cbn [length]; lia.
-      - cbn [rbind]. eexists. split; [reflexivity|]. rewrite app_length, map_length. cbn [length]. lia. }
-    exists ys. split; [exact E|]. split.
-    - unfold Bh. rewrite Hl' in Hly. nia.
-    - intros [t b] Hy. cbn [fst].
-      destruct (proj1 (rflatM_in _ _ _ _ E) Hy) as [b0 [zs [Hb [Hf Hz]]]].
-      destruct (filter_sat string_dom h b0 cts) as [fired| |] eqn:FS; cbn [rbind] in Hf; try discriminate.
-      cbn zeta in Hf.
-      destruct (if negb (a_det st) || match fired with [] => true | _ => false end then fail_next_state st else Ok None)
-        as [fail| |] eqn:FN'; cbn [rbind] in Hf; try discriminate.
-      inversion Hf; subst zs. apply in_app_or in Hz as [Hz|Hz].
-      + apply in_map_iff in Hz as [t0 [Et Ht]]. inversion Et; subst.
-        destruct (StringUnique.filter_sat_bwd string_dom h b cts fired t FS Ht) as [c [Hct _]].
-        destruct (cons_transitions_edge st cts c t CT Hct) as [e [He [_ Het]]]. eauto.
-      + destruct fail as [t0|]; [|destruct Hz]. destruct Hz as [Et|[]]. inversion Et; subst.
-        apply Hfo. destruct (negb (a_det st) || match fired with [] => true | _ => false end); [congruence|discriminate].
-  Qed.
-
-  (** ** the measure: items weigh more the closer their state is to the root *)
-  Variable rank : N -> nat.
-  Hypothesis Hrank : forall s e, In s (au_states A) -> In e (a_out s) -> (rank (a_id s) < rank (e_target e))%nat.
-
-  Definition rmax : nat := fold_right Nat.max 0%nat (map rank (state_ids A)).
-  Lemma rmax_ge t : In t (state_ids A) -> (rank t <= rmax)%nat.
-  Proof.
-    unfold rmax. induction (state_ids A) as [|x l IH]; intros Hin; [destruct Hin|]. cbn [map fold_right].
-    destruct Hin as [->|Hin]; [lia|]. specialize (IH Hin). lia.
-  Qed.
-
-  Definition weight (t : N) : nat := Nat.pow (S Bh) (rmax - rank t).
-  Definition measure (q : list (N * spm)) : nat := fold_right (fun x acc => (weight (fst x) + acc)%nat) 0%nat q.
-
-  Lemma weight_pos t : (1 <= weight t)%nat.
-  Proof. unfold weight. pose proof (Nat.pow_nonzero (S Bh) (rmax - rank t)). lia. Qed.
-
-  Lemma measure_app q1 q2 : measure (q1 ++ q2) = (measure q1 + measure q2)%nat.
-  Proof. unfold measure. induction q1 as [|x q IH]; cbn [app fold_right]; [reflexivity|]. rewrite IH. lia. Qed.
-
-  Lemma measure_bound ys w : (forall y, In y ys -> (weight (fst y) <= w)%nat) -> (measure ys <= length ys * w)%nat.
-  Proof.
-    induction ys as [|y ys IH]; intros H; [cbn; lia|]. cbn [measure fold_right length].
-    specialize (H y (or_introl eq_refl)) as Hy. fold (measure ys).
-    assert (measure ys <= length ys * w)%nat by (apply IH; intros z Hz; apply H; now right). lia.
-  Qed.
-
-  (** successors weigh less than their source, all together *)
-  Lemma successors_lighter st ys :
-    In st (au_states A) -> (length ys <= Bh)%nat ->
-    (forall y, In y ys -> exists e, In e (a_out st) /\ e_target e = fst y) ->
-    (measure ys + 1 <= weight (a_id st))%nat.
-  Proof.
-    intros Hst Hlen Hsucc.
-    assert (Hid : In (a_id st) (state_ids A)) by (unfold state_ids; now apply in_map).
-    pose proof (rmax_ge _ Hid) as Hr.
-    destruct ys as [|y0 ys'] eqn:Ey; [cbn; apply weight_pos|]. rewrite <- Ey in *.
-    (* some successor exists: the rank of st is below rmax *)
-    assert (Hlt : (rank (a_id st) < rmax)%nat).
-    { destruct (Hsucc y0) as [e [He Het]]; [rewrite Ey; now left|].
-      pose proof (Hrank st e Hst He). pose proof (rmax_ge _ (wf_targets _ _ _ HWF st e Hst He)). lia. }
-    unfold weight at 1. destruct (rmax - rank (a_id st))%nat as [|d] eqn:Ed; [lia|]. rewrite Nat.pow_succ_r'.
-    set (P := Nat.pow (S Bh) d).
-    assert (HP : (1 <= P)%nat) by (unfold P; pose proof (Nat.pow_nonzero (S Bh) d); lia).
-    assert (Hys : (measure ys <= length ys * P)%nat).
-    { apply measure_bound. intros y Hy. destruct (Hsucc y Hy) as [e [He Het]].
-      pose proof (Hrank st e Hst He) as Hre. rewrite Het in Hre. unfold weight, P.
-      apply Nat.pow_le_mono_r; lia. }
-    nia.
-  Qed.
-
-  Lemma run_loop_total : forall fuel queue vis acc,
-    (forall x, In x queue -> In (fst x) (state_ids A)) -> (measure queue < fuel)%nat ->
-    exists ms, run_loop string_dom fuel A h queue vis acc = Ok ms.
-  Proof.
-    induction fuel as [|f IH]; intros queue vis acc Hq Hm; [lia|]. cbn [run_loop].
-    destruct queue as [|[t m] q]; [eauto|].
-    destruct (get_state_total t (Hq (t, m) (or_introl eq_refl))) as [st [G [Hst Hid]]]. rewrite G. cbn [rbind].
-    cbn [measure fold_right fst] in Hm. fold (measure q) in Hm. pose proof (weight_pos t).
-    destruct (visited_mem string_dom t (view string_dom st m) vis).
-    - apply IH; [intros x Hx; apply Hq; now right|lia].
-    - destruct (emissions_total st m Hst) as [e ->]. cbn [rbind].
-      destruct (next_legal_total st m Hst) as [ys [-> [Hlen Hsucc]]]. cbn [rbind].
-      apply IH.
-      + intros x Hx. apply in_app_or in Hx as [Hx|Hx]; [apply Hq; now right|].
-        destruct (Hsucc x Hx) as [e' [He' <-]]. apply (wf_targets _ _ _ HWF st e' Hst He').
-      + rewrite measure_app. pose proof (successors_lighter st ys Hst Hlen Hsucc) as Hl. rewrite Hid in Hl. lia.
-  Qed.
-End StringTotal.
 
 (** the traversal of a well-formed string automaton never panics and terminates *)
 Theorem s_run_total (A : automaton N cpredicate) rk ids h :
@@ -354,8 +115,10 @@ Theorem s_run_total (A : automaton N cpredicate) rk ids h :
 Proof.
   intros W HAR. pose proof (wf_check_sound string_dom LawfulDomains.string_dom_eq A rk ids W) as HWF.
   destruct (wf_acyclic _ _ _ HWF) as [rank Hrank].
-  exists (S (weight A h rank (au_root A))). intros fuel Hf. unfold run.
-  apply (run_loop_total A ids HWF HAR h rank Hrank).
-  - intros x [<-|[]]. cbn. apply (wf_rooted _ _ _ HWF).
-  - cbn. lia.
+  apply (run_total_gen string_dom A ids HWF HAR h (fun _ => True) (Nat.max 1 (N.to_nat (blen h))) I) with (rank := rank); auto.
+  - intros m ks inc _. destruct (s_bind_all_total h m ks inc) as [l B]. exists l. split; auto.
+    split; [eapply s_bind_all_length; eauto|apply Forall_forall; auto].
+  - intros st m Hst _. destruct (s_retain_total_ord (a_scope st) m (wf_scope_ordered _ _ _ HWF st Hst)) as [m' E]. eauto.
+  - intros st pk m Hst Hpk _. apply s_retain_total_ord. apply (wf_match_ordered _ _ _ HWF st pk Hst Hpk).
+  - intros c m Ha _. now apply s_sat_total.
 Qed.
